@@ -367,22 +367,38 @@ fn lie_at_every_offset(e: &[u8], big_endian_too: bool, mut f: impl FnMut(&[u8]))
 
 fn gen_lying_lengths(_ctx: &Ctx, targets: &[Target], thorough: bool, emit: Emit) {
     let names = by_name(targets);
-    for (name, group, encs) in encodings(thorough, if thorough { 6 } else { 2 }) {
+    for (name, group, mut encs) in encodings(thorough, if thorough { 6 } else { 2 }) {
         let Some(&ti) = names.get(name.as_str()) else { continue };
-        let be = matches!(group, "abi-cbor" | "abi-dto" | "edict-cbor" | "scene-cbor" | "intent-envelope");
+        let cbor = matches!(group, "abi-cbor" | "abi-dto" | "edict-cbor" | "scene-cbor");
+        if !thorough {
+            // quick: CBOR codecs get their lying lengths from the header-shape family; binary
+            // codecs use the largest encoding (it carries every length/count field) only
+            if cbor {
+                continue;
+            }
+            encs.truncate(1);
+        }
         for e in &encs {
             if e.len() > 4096 {
                 continue;
             }
-            lie_at_every_offset(e, be, |b| emit(ti, &|| b.to_vec()));
+            lie_at_every_offset(e, cbor || group == "intent-envelope", |b| emit(ti, &|| b.to_vec()));
         }
     }
 }
 
 fn gen_mutations(_ctx: &Ctx, targets: &[Target], thorough: bool, emit: Emit) {
     let names = by_name(targets);
-    for (name, _group, encs) in encodings(thorough, if thorough { 0 } else { 3 }) {
+    for (name, _group, mut encs) in encodings(thorough, if thorough { 0 } else { 3 }) {
         let Some(&ti) = names.get(name.as_str()) else { continue };
+        if !thorough {
+            // quick: the smallest encoding and the largest one not above 320 bytes (C12 (c) already
+            // judges every mutant of every encoding in-process, minus the ones it must skip)
+            let small = encs.last().cloned();
+            let mid = encs.iter().find(|e| e.len() <= 320).cloned();
+            encs = small.into_iter().chain(mid).collect();
+            encs.dedup();
+        }
         for e in &encs {
             for_each_mutant(e, 8192, |_k, _p, b| emit(ti, &|| b.to_vec()));
         }
